@@ -1673,6 +1673,9 @@ struct MConn {
   history: RefCell<Vec<P>>,
   stored: RefCell<Option<Rk>>,
   connection: RefCell<Option<Disp>>,
+  /// the source is being subscribed right now: a disconnect requested meanwhile takes effect
+  /// when that call returns (as in MConnNode: the crate has no handle to the connection before)
+  connecting: Cell<bool>,
 }
 
 impl MConn {
@@ -1725,7 +1728,19 @@ fn conn_connect(sh: &Rc<MShared>) {
   let o = Obs::new(move |p| c1.push(Rk::N(p.clone())), move |c| c2.push(Rk::E(c)), move || c3.push(Rk::C));
   d.add_obs(&o);
   let root = sh.root.clone();
+  let counted = conn.kind != ConnKind::Publish;
+  if counted {
+    conn.connecting.set(true);
+  }
   subscribe(&sh.env, &root, o, d);
+  if counted {
+    conn.connecting.set(false);
+    // everybody left while the source was being subscribed: the connection is dropped now
+    conn.subs.borrow_mut().retain(|o| o.alive());
+    if conn.count() == 0 {
+      conn_disconnect(sh);
+    }
+  }
 }
 
 fn conn_disconnect(sh: &Rc<MShared>) {
@@ -1743,13 +1758,14 @@ fn conn_recount(sh: &Rc<MShared>) {
     return;
   }
   conn.subs.borrow_mut().retain(|o| o.alive());
-  if conn.count() == 0 {
+  if conn.count() == 0 && !conn.connecting.get() {
     conn_disconnect(sh);
   }
 }
 
 struct MShared {
   conn_take: Option<usize>,
+  conn_take_only: Option<usize>,
   conn: Option<Rc<MConn>>,
   env: Rc<MEnv>,
   root: Node,
@@ -1816,7 +1832,7 @@ fn m_subscribe(sh: &Rc<MShared>, k: usize) {
   d.add_obs(&o);
   if let Some(conn) = sh.conn.clone() {
     // subscribe to the connectable's observable() (optionally through take(n))
-    let o = match sh.conn_take {
+    let o = match sh.conn_take.filter(|_| sh.conn_take_only.map_or(true, |only| only == k)) {
       None => o,
       Some(n) => {
         let cnt = Rc::new(Cell::new(0usize));
@@ -1934,6 +1950,7 @@ pub fn run_model_opt(case: &Case, conv: Conv, sentinel: bool) -> Result<MResult,
   let nrec = case.recorders.len();
   let sh = Rc::new(MShared {
     conn_take: case.conn_take,
+    conn_take_only: case.conn_take_only,
     conn: case.conn.clone().map(|kind| {
       Rc::new(MConn {
         kind,
@@ -1941,6 +1958,7 @@ pub fn run_model_opt(case: &Case, conv: Conv, sentinel: bool) -> Result<MResult,
         history: RefCell::new(Vec::new()),
         stored: RefCell::new(None),
         connection: RefCell::new(None),
+        connecting: Cell::new(false),
       })
     }),
     env: env.clone(),
